@@ -246,6 +246,8 @@ pub fn block(name: &str, c: &AlphaCtx, out: &mut Vec<Op>) {
                     out.push(Op::arg(OpK::IntoIter, iter_arg(0, mode, p)));
                 }
             }
+            out.push(Op::arg(OpK::Drain, iter_arg(0, MODE_NTH_AT, PREFIX_MAX)));
+            out.push(Op::arg(OpK::IntoIter, iter_arg(0, MODE_NTH_AT, PREFIX_MAX)));
         }
         "iterlite" => {
             out.push(Op::arg(OpK::Drain, iter_arg(0, MODE_CONSUME, 0)));
@@ -256,7 +258,7 @@ pub fn block(name: &str, c: &AlphaCtx, out: &mut Vec<Op>) {
                     out.push(Op::arg(OpK::IntoIter, iter_arg(0, mode, p)));
                 }
             }
-            for (mode, p) in [(MODE_FOLD_AT, 0), (MODE_COUNT_AT, 1), (MODE_LAST_AT, 0), (MODE_NTH_AT, len / 2)] {
+            for (mode, p) in [(MODE_FOLD_AT, 0), (MODE_COUNT_AT, 1), (MODE_LAST_AT, 0), (MODE_NTH_AT, len / 2), (MODE_NTH_AT, PREFIX_MAX)] {
                 out.push(Op::arg(OpK::Drain, iter_arg(0, mode, p)));
                 out.push(Op::arg(OpK::IntoIter, iter_arg(0, mode, p)));
             }
@@ -436,6 +438,9 @@ pub fn block(name: &str, c: &AlphaCtx, out: &mut Vec<Op>) {
                     out.push(Op::arg(OpK::DrainFilter, iter_arg(1, mode, p)));
                 }
             }
+            out.push(Op::arg(OpK::Drain, iter_arg(0, MODE_NTH_AT, PREFIX_MAX)));
+            out.push(Op::arg(OpK::IntoIter, iter_arg(0, MODE_NTH_AT, PREFIX_MAX)));
+            out.push(Op::arg(OpK::DrainFilter, iter_arg(1, MODE_NTH_AT, PREFIX_MAX)));
         }
         // deliberate logic errors (safety-only afterwards)
         "wrong" => {
